@@ -34,6 +34,9 @@ func (sc *sliceContainers) Get(key uint64) *Container {
 }
 
 func (sc *sliceContainers) Put(key uint64, c *Container) {
+	// Keep the last* cache coherent: a Put on a container we just got from
+	// GetOrCreate must not leave the cache answering with the old container.
+	sc.lastKey, sc.lastContainer = key, c
 	i := search64(sc.keys, key)
 
 	// If index is negative then there's not an exact match
@@ -47,6 +50,7 @@ func (sc *sliceContainers) Put(key uint64, c *Container) {
 }
 
 func (sc *sliceContainers) PutContainerValues(key uint64, typ byte, n int, mapped bool) {
+	sc.invalidateLast()
 	i := search64(sc.keys, key)
 	if i < 0 {
 		c := NewContainer()
@@ -83,6 +87,13 @@ func (sc *sliceContainers) Remove(key uint64) {
 	sc.containers = append(sc.containers[:i], sc.containers[i+1:]...)
 
 }
+// invalidateLast forgets the most recently used container. It must be called
+// by anything that may replace a container without going through Put.
+func (sc *sliceContainers) invalidateLast() {
+	sc.lastKey = ^uint64(0)
+	sc.lastContainer = nil
+}
+
 func (sc *sliceContainers) insertAt(key uint64, c *Container, i int) {
 	statsHit("sliceContainers/insertAt")
 	sc.keys = append(sc.keys, 0)
@@ -199,6 +210,7 @@ func (sc *sliceContainers) Repair() {
 // (new-container, write). If write is true, the container is used to
 // replace the given container.
 func (sc *sliceContainers) Update(key uint64, fn func(*Container, bool) (*Container, bool)) {
+	sc.invalidateLast()
 	i, found := sc.seek(key)
 	var nc *Container
 	var write bool
@@ -221,6 +233,7 @@ func (sc *sliceContainers) Update(key uint64, fn func(*Container, bool) (*Contai
 // (new-container, write). If write is true, the container is used to
 // replace the given container.
 func (sc *sliceContainers) UpdateEvery(fn func(uint64, *Container, bool) (*Container, bool)) {
+	sc.invalidateLast()
 	for i, c := range sc.containers {
 		nc, write := fn(sc.keys[i], c, true)
 		if write {
